@@ -122,6 +122,7 @@ func (P *Prog) verifyFuncOnce(fn *ssa.Function, thorough bool, autoOff map[strin
 		ex.inputs = append(ex.inputs, inputSym{p.Name(), p.Type(), v})
 	}
 	// preconditions
+	fr.lookBlock, fr.lookAtEnd = fn.Blocks[0], false
 	mkCtx := func(s *State) *Ctx {
 		cx := fr.baseCtx(s)
 		cx.lookup = func(name string) (*Val, types.Type, bool) { return fr.frameLookup(name, cx.state(), nil) }
@@ -148,7 +149,7 @@ func (P *Prog) verifyFuncOnce(fn *ssa.Function, thorough bool, autoOff map[strin
 	ex.obls = append(ex.obls, &Obl{Name: shortKey(key) + ":cover:requires#0", Kind: "cover", Pos: ex.q.pos(), Reach: "true", Cond: "false", Fn: key, Cover: true, Text: "preconditions satisfiable"})
 	ret, out, retReach := fr.run("true", st)
 	_ = ret
-	if spec != nil || len(P.typeInvsFor(fn)) > 0 {
+	if spec != nil || len(P.typeInvsFor(fn)) > 0 || P.returnsInvType(fn) {
 		// postconditions at the merged exit
 		var resTuple *Val
 		if ret != nil {
@@ -158,6 +159,11 @@ func (P *Prog) verifyFuncOnce(fn *ssa.Function, thorough bool, autoOff map[strin
 			cx := mkCtx(out)
 			cx.old = fr.entrySt
 			cx.goal = true
+			// in postconditions a parameter name denotes its value at entry
+			for _, p := range fn.Params {
+				cx.vals[p.Name()] = fr.vals[p]
+				cx.types[p.Name()] = p.Type()
+			}
 			if resTuple != nil && fn.Signature.Results().Len() > 0 {
 				cx.setResult(fn, resTuple)
 			}
@@ -167,7 +173,7 @@ func (P *Prog) verifyFuncOnce(fn *ssa.Function, thorough bool, autoOff map[strin
 		for _, b := range fn.Blocks {
 			if len(b.Instrs) > 0 {
 				if _, ok := b.Instrs[len(b.Instrs)-1].(*ssa.Return); ok && fr.envOut[b] != nil {
-					fr.env = fr.envOut[b]
+					fr.lookBlock, fr.lookAtEnd = b, true
 					fr.st = out
 				}
 			}
@@ -194,8 +200,32 @@ func (P *Prog) verifyFuncOnce(fn *ssa.Function, thorough bool, autoOff map[strin
 			cx.types["self"] = fn.Params[0].Type()
 			addPost("objinv", clauseName(ti.Clause), ti.Clause, cx.evalBool(ti.Clause.Expr))
 		}
+		// constructors: a function returning a pointer to an invariant-carrying type establishes the invariant
+		if res := fn.Signature.Results(); res.Len() == 1 && fn.Signature.Recv() == nil {
+			if n := structNamed(res.At(0).Type()); n != nil {
+				if _, isPtr := res.At(0).Type().Underlying().(*types.Pointer); isPtr {
+					for _, ti := range P.specs.Types[typeKeyOf(n)] {
+						cx := mkPost()
+						if sp := P.pkgByPath[ti.Pkg]; sp != nil {
+							cx.pkg = sp.Pkg
+						}
+						cx.spec = nil
+						cx.vals["self"] = resTuple.C[0]
+						cx.types["self"] = res.At(0).Type()
+						addPost("objinv", "ctor:"+clauseName(ti.Clause), ti.Clause, implies(not(eq(resTuple.C[0].T, "nil")), cx.evalBool(ti.Clause.Expr)))
+					}
+				}
+			}
+		}
 		// reachability of the exit (vacuity guard for postconditions)
 		ex.obls = append(ex.obls, &Obl{Name: shortKey(key) + ":cover:exit#0", Kind: "cover", Pos: ex.q.pos(), Reach: retReach, Cond: "false", Fn: key, Cover: true, Text: "function exit reachable"})
+	}
+	if spec != nil {
+		for _, c := range spec.RetSites {
+			if (!c.Thor || thorough) && ex.retSiteHits[clauseName(c)] == 0 {
+				panic(fmt.Errorf("contract: returns clause %q applies to no return statement", c.Src))
+			}
+		}
 	}
 	res.Obls = ex.obls
 	return res
@@ -215,6 +245,27 @@ func shortKey(key string) string {
 // encoding (DESIGN §2.3: both are exact semantics of the same program, so a
 // proof in either one is a proof).
 func (P *Prog) solveFunc(s *Solver, res *FuncResult, thorough bool, keep func(*Obl) bool) []*Verdict {
+	return P.solveFuncBudget(s, res, thorough, keep, true)
+}
+
+// solveFuncBudget: deep=false restricts the effort per obligation to the
+// cheap stages (used for contract-less functions of the sweeps, where an
+// unproved obligation is expected to be a missing precondition rather than a
+// hard proof).
+func (P *Prog) solveFuncBudget(s *Solver, res *FuncResult, thorough bool, keep func(*Obl) bool, deep bool) []*Verdict {
+	if !deep && !thorough {
+		s2 := *s
+		s2.fastOnly = true
+		s2.quickMs = 1200
+		s2.perSolver = s.perSolver
+		sp := &s2
+		defer func() { s.mu.Lock(); s.solverSecs += sp.solverSecs - s.solverSecs; s.mu.Unlock() }()
+		return P.solveFuncInner(sp, res, thorough, keep, false)
+	}
+	return P.solveFuncInner(s, res, thorough, keep, true)
+}
+
+func (P *Prog) solveFuncInner(s *Solver, res *FuncResult, thorough bool, keep func(*Obl) bool, otherMode bool) []*Verdict {
 	var obls []*Obl
 	for _, o := range res.Obls {
 		if keep == nil || keep(o) {
@@ -251,7 +302,7 @@ func (P *Prog) solveFunc(s *Solver, res *FuncResult, thorough bool, keep func(*O
 			open = append(open, v)
 		}
 	}
-	if len(open) == 0 || res.Fn == nil {
+	if len(open) == 0 || res.Fn == nil || !otherMode {
 		return vs
 	}
 	res2 := P.verifyFuncMode(res.Fn, thorough, other)
@@ -280,4 +331,13 @@ func (P *Prog) solveFunc(s *Solver, res *FuncResult, thorough bool, keep func(*O
 		}
 	}
 	return vs
+}
+
+func (P *Prog) returnsInvType(fn *ssa.Function) bool {
+	res := fn.Signature.Results()
+	if res.Len() != 1 || fn.Signature.Recv() != nil {
+		return false
+	}
+	n := structNamed(res.At(0).Type())
+	return n != nil && len(P.specs.Types[typeKeyOf(n)]) > 0
 }
